@@ -527,11 +527,14 @@ func (h *engineHost) request(input string) *reqEvent {
 			ev.Outlen = w.Len()
 		}()
 	}
-	rec.flushInstr(ev.Fpanic != "") // Render may run the catch move
 	ev.Fext = rec.ext
+	for _, e := range rec.buf { // Render may run the catch move: its lookups belong to the flush too
+		ev.Fext = append(ev.Fext, e.Ext...)
+	}
 	if ev.Fext == nil {
 		ev.Fext = []extEntry{}
 	}
+	rec.flushInstr(ev.Fpanic != "")
 	rec.ext = nil
 	ev.Post2 = h.snapNow()
 	if h.mode == "P" {
